@@ -2601,6 +2601,13 @@ class RedunBackendDb(RedunBackend):
             for parent_handle in parent_handles
             if parent_handle.__handle__.fork_parent and not parent_handle.__handle__.is_recorded
         ]
+        # A fork derives from the handle it was forked from. Remember these pairs, so that the
+        # lineage edge can be recorded and a rollback of the original also reaches its forks.
+        fork_edges = [
+            (parent_handle.__handle__.fork_parent, parent_handle)
+            for parent_handle in parent_handles
+            if parent_handle.__handle__.fork_parent and not parent_handle.__handle__.is_recorded
+        ]
         while queue:
             _handle = queue.pop()
             get_or_create(
@@ -2616,6 +2623,7 @@ class RedunBackendDb(RedunBackend):
             )
             _handle.__handle__.is_recorded = True
             if _handle.__handle__.fork_parent:
+                fork_edges.append((_handle.__handle__.fork_parent, _handle))
                 queue.append(_handle.__handle__.fork_parent)
 
         # Get or create child_handle.
@@ -2654,6 +2662,16 @@ class RedunBackendDb(RedunBackend):
                 {
                     "parent_id": parent_handle.__handle__.hash,
                     "child_id": child_handle.__handle__.hash,
+                },
+            )
+
+        for fork_parent, fork in fork_edges:
+            get_or_create(
+                self.session,
+                HandleEdge,
+                {
+                    "parent_id": fork_parent.__handle__.hash,
+                    "child_id": fork.__handle__.hash,
                 },
             )
 
